@@ -21,6 +21,13 @@ def bases(tier, seed):
                      iwc={"value": ["WP"]} if irr["method"] in (4, 1) else {"wc_type": "Pct", "value": [60]}))
     # thermal crop: the harvest date is stated explicitly (an unset one is derived from the first season of the run = a different input)
     out.append(S("MaizeGDD", "SandyLoam", seed=seed + 10, seasons=3, regime="hot", harvest_date="11/25", irr={"method": 4, "kw": {"NetIrrSMT": 60}}, iwc={"value": ["WP"]}))
+    # thermal crops under year-to-year temperature differences (every season's calendar in days is recomputed from that season's weather):
+    # the repository's Champion series, and a synthetic series with a temperature anomaly per year; heat at flowering in the later seasons
+    gb = L.builtin_scenario("MaizeGDD", 1985, plant="05/01", file="champion_climate.txt", end="1987/12/30")
+    gb["crop"]["harvest_date"] = "11/15"
+    out.append(gb)
+    out.append(S("SunflowerGDD", "Loam", seed=seed + 13, seasons=3, regime="hot", harvest_date="10/30", wparams={"yr_amp": 3.0},
+                 events=[{"from": "2002/06/10", "to": "2002/07/20", "Tmax": 41.0, "Tmin": 27.0}, {"from": "2003/06/10", "to": "2003/07/20", "Tmax": 40.0, "Tmin": 26.0}]))
     out.append(S("Barley", "SiltLoam", seed=seed + 11, seasons=3, field={"bunds": True, "z_bund": 0.1, "bund_water": 30}, irr={"method": 2}))
     out.append(S("Wheat", "Clay", seed=seed + 12, seasons=3, gw={"water_table": "Y", "dates": ["2001/04/20"], "values": [1.4]}, field={"mulches": True, "mulch_pct": 60, "f_mulch": 0.5}))
     # a season that follows a crop failure (severe early drought kills the crop of one season only)
